@@ -22,7 +22,9 @@ type fileSpec struct {
 	Ck     bool   `json:"checkpoint,omitempty"` // atlas:checkpoint file
 	// Sep: the line between the directive header and the first statement: "" = empty, "blanks" =
 	// a line holding a space and a tab only (what an editor leaves behind), "crlf" = the whole file
-	// is saved with CR LF line endings.
+	// is saved with CR LF line endings; "delim" = the file's first line is `-- atlas:delimiter \n\n`
+	// and its statements are separated by blank lines instead of semicolons (the directive holds
+	// for this file only).
 	Sep string `json:"sep,omitempty"`
 }
 
@@ -84,6 +86,9 @@ func files(shape []fileSpec) map[string]string {
 	st := start(shape)
 	for f, fs := range shape {
 		var b strings.Builder
+		if fs.Sep == "delim" {
+			b.WriteString("-- atlas:delimiter \\n\\n\n")
+		}
 		if fs.Ck {
 			b.WriteString("-- atlas:checkpoint\n")
 		}
@@ -104,6 +109,12 @@ func files(shape []fileSpec) map[string]string {
 			fmt.Fprintf(&b, "INSERT INTO journal (sid) VALUES (%d);\n", sid(f, i))
 		}
 		out[fmt.Sprintf("%d_f.sql", f+1)] = b.String()
+		if fs.Sep == "delim" {
+			out[fmt.Sprintf("%d_f.sql", f+1)] = strings.ReplaceAll(b.String(), ";\n", "\n\n")
+			if !fs.Ck && fs.TxMode == "" {
+				out[fmt.Sprintf("%d_f.sql", f+1)] = strings.Replace(out[fmt.Sprintf("%d_f.sql", f+1)], "\\n\\n\n", "\\n\\n\n\n", 1)
+			}
+		}
 		if fs.Sep == "crlf" {
 			out[fmt.Sprintf("%d_f.sql", f+1)] = strings.ReplaceAll(b.String(), "\n", "\r\n")
 		}
@@ -346,6 +357,9 @@ func shapes(tier string) [][]fileSpec {
 		{{N: 1}, {N: 2, Ck: true, Sep: "crlf"}, {N: 1}},
 		// checkpoints: a first run starts at the latest one; an older checkpoint and files follow it.
 		{{N: 1, Ck: true}, {N: 2, Ck: true}, {N: 1}, {N: 1}},
+		// a delimiter directive holds for its own file only.
+		{{N: 2, Sep: "delim"}, {N: 2}},
+		{{N: 1}, {N: 2, Sep: "delim"}, {N: 2}},
 	}
 	if tier != "thorough" {
 		return q
@@ -367,7 +381,7 @@ func formats(tier string) []string {
 
 func Run(r *report.Run) {
 	defer clih.Cleanup()
-	r.Rule = "real CLI binary (built with -tags verif) on a real SQLite file: tx-mode {file, all, none} x directory shapes (1-5 files x 1-4 statements, per-file txmode directives (header detached by an empty line, by a line of blanks, or in a file saved with CR LF line endings), checkpoint files incl. two checkpoints with files after the latest; plain shapes also as golang-migrate / goose / flyway / dbmate directories opened with ?format=; statements INSERT their own id into a journal table) x every crash point reached by the crash-free run of that shape (stmt.before/after, rev.before/after, commit.before/after, commitall.before/after, lock.created/written - discovered by a counting run, so complete by construction) ; the process is killed (exit 137, no deferred code) and the same command is run again; states read by our own SQLite connection; non-trivial = case whose crash point was reached; distinct = (mode, format, shape, point)"
+	r.Rule = "real CLI binary (built with -tags verif) on a real SQLite file: tx-mode {file, all, none} x directory shapes (1-5 files x 1-4 statements, per-file txmode directives (header detached by an empty line, by a line of blanks, or in a file saved with CR LF line endings), a file with a delimiter directive of its own followed by plain files, checkpoint files incl. two checkpoints with files after the latest; plain shapes also as golang-migrate / goose / flyway / dbmate directories opened with ?format=; statements INSERT their own id into a journal table) x every crash point reached by the crash-free run of that shape (stmt.before/after, rev.before/after, commit.before/after, commitall.before/after, lock.created/written - discovered by a counting run, so complete by construction) ; the process is killed (exit 137, no deferred code) and the same command is run again; states read by our own SQLite connection; non-trivial = case whose crash point was reached; distinct = (mode, format, shape, point)"
 	r.Assumptions = []string{
 		"the re-run happens after the advisory lock of the killed process expired (--lock-timeout 1ms and stale lock files removed)",
 		"SQLite's own journal recovery is trusted; the first statement is CREATE TABLE IF NOT EXISTS so that re-executing the in-flight statement in none mode is possible at all",
